@@ -93,7 +93,11 @@ fn key_main<C: key::KeyColl>(a: &Args, tr: &mut out::Trace) {
         "ind" => {
             let text = std::fs::read_to_string(a.str("states", "")).expect("states file");
             let states: Vec<out::Snap> = text.lines().filter(|l| !l.trim().is_empty()).map(|l| out::parse_snap(l).expect("start state")).collect();
-            key::run_ind::<C>(tr, &states, a.num("export", 1) != 0);
+            if a.num("faults", 0) != 0 {
+                key::run_ind_faults::<C>(tr, &states);
+            } else {
+                key::run_ind::<C>(tr, &states, a.num("export", 1) != 0);
+            }
         }
         "scale" => key::run_scale::<C>(tr, a.num("seed", 1) as u64, &a.str("rounds", "ABC"), a.num("deep", 0) as i32),
         "sizes" => key::run_sizes::<C>(tr, a.num("max", 100000) as u64, a.num("seed", 1) as u64),
@@ -151,7 +155,11 @@ fn ord_main<C: ord::OrdColl>(a: &Args, tr: &mut out::Trace) {
         "ind" => {
             let text = std::fs::read_to_string(a.str("states", "")).expect("states file");
             let states: Vec<out::Snap> = text.lines().filter(|l| !l.trim().is_empty()).map(|l| out::parse_snap(l).expect("start state")).collect();
-            ord::run_ind::<C>(tr, &states, a.num("handles", 0) != 0);
+            if a.num("faults", 0) != 0 {
+                ord::run_ind_faults::<C>(tr, &states);
+            } else {
+                ord::run_ind::<C>(tr, &states, a.num("handles", 0) != 0);
+            }
         }
         "paths" | "faults" => {
             let text = std::fs::read_to_string(a.str("paths", "")).expect("paths file");
